@@ -1,38 +1,57 @@
-(* C23 — Numscript never overdraws a bounded source.  PARTIAL: what is proved is the mechanism every bounded source
-   account goes through (OP_TAKE_ALL = withdrawAll), not yet the whole-program invariant; the whole-program statement
-   is checked on every run by the monitor [ns-overdrawn] (computed from the implementation's postings and the initial
-   balances only) and by model = implementation on the tracked balances before/after each program. *)
+(* C23 — Numscript never overdraws a bounded source.  Statements only; proofs in Machine/BalProofs.v, RunProofs.v. *)
 From Coq Require Import List ZArith QArith String Bool.
-From LV Require Import Machine.Syntax Machine.Allot Machine.Lex Machine.Sem Machine.SemSafe.
+From LV Require Import Machine.Syntax Machine.Allot Machine.Lex Machine.Sem Machine.SemProofs Machine.BalProofs Machine.RunProofs Machine.SemSafe.
 Import ListNotations.
 Open Scope Z_scope.
 Open Scope string_scope.
 
-(* FULL STATEMENT (not proved; no counterexample found in > 10^5 generated programs): for every successful run and every
-   source account a that is not world and never declared unbounded, initial(a, A) + net effect of the postings
-   >= min(initial(a, A), -B) where B is the largest `overdraft up to` bound declared for a (0 without a clause).
+(* For EVERY program, variables and store, if the run succeeds there is an environment e (the resolved variables, in
+   which the statements were executed: Forall2 stmt_posts) such that for every tracked pair k = (account, asset) with
+   account <> world and every bound B >= 0:
+     IF in every send statement ([stmt_bound k e B]) every source on k's account is either plain (bound 0) or carries
+        `allowing overdraft up to M` with M <= B (M evaluated in e, in k's asset), and NO source declared
+        `allowing unbounded overdraft` evaluates to k's account,
+     THEN  initial(k) + net effect of ALL postings of the run on k  >=  min(initial(k), -B),
+   where initial(k) is the store's balance (C22_balances). The balance is initial + postings of the whole run, so
+   funds received earlier in the script are spendable. Tracked pairs are exactly the bounded source accounts x the
+   statement's asset (NeededBalances) plus balance() pairs; a bounded source that is not tracked cannot be
+   withdrawn at all (C23_untracked_is_error), so every bounded source of a successful run is covered. *)
+Theorem C23_bound : forall p given s r, run p given s = Ok r ->
+  exists e, Forall2 (stmt_posts e) (pstmts p) (rposts r) /\
+  forall k B v, fst k <> "world" -> 0 <= B -> Forall (stmt_bound k e B) (pstmts p) ->
+    bget (rinit r) k = Some v ->
+    Z.min v (- B) <= v + effect (fst k) (snd k) (all_postings r).
+Proof. exact run_bounded. Qed.
+Print Assumptions C23_bound.
 
-   Proved: a bounded source with tracked balance x and overdraft bound o hands out exactly max(0, x + o), as a single
-   part on that account, and its tracked balance becomes y = x - that amount >= min(x, -o); an untracked bounded
-   source is an error (never silently unbounded). Everything a bounded account can lose in a script flows through
-   this funding (fundings only shrink by TAKE/TAKE_MAX and the remainder is repaid). *)
-Theorem C23_partial_withdraw_all : forall b acc asset o f b1 x,
+(* purely syntactic instance: no overdraft clause anywhere => no tracked non-world account ends below min(initial, 0) *)
+Theorem C23_no_overdraft : forall p given s r, run p given s = Ok r ->
+  forallb stmt_no_overdraft (pstmts p) = true ->
+  forall k v, fst k <> "world" -> bget (rinit r) k = Some v ->
+  Z.min v 0 <= v + effect (fst k) (snd k) (all_postings r).
+Proof. exact run_no_overdraft. Qed.
+Print Assumptions C23_no_overdraft.
+
+(* the mechanism: withdrawAll hands out max(0, balance + bound) and leaves >= min(balance, -bound) *)
+Theorem C23_withdraw_all : forall b acc asset o f b1 x,
   withdraw_all b acc asset (Some o) = Ok (f, b1) -> bget b (acc, asset) = Some x ->
   exists y, bget b1 (acc, asset) = Some y /\ Z.min x (- o) <= y /\ total f = Z.max 0 (x + o) /\ y + total f = x /\
             fparts f = [(acc, total f)].
 Proof. exact withdraw_all_bound. Qed.
-Print Assumptions C23_partial_withdraw_all.
+Print Assumptions C23_withdraw_all.
 
 Theorem C23_untracked_is_error : forall b acc asset od, bget b (acc, asset) = None ->
   withdraw_all b acc asset od = Err EInvalidScript.
 Proof. intros b acc asset od H. unfold withdraw_all. rewrite H. reflexivity. Qed.
 Print Assumptions C23_untracked_is_error.
 
-(* non-vacuity: negative initial balance with an overdraft allowance; funds received earlier in the script are spendable *)
+(* non-vacuity: negative initial balance with an overdraft allowance; funds received earlier in the script are spendable;
+   a: -10 -> +30 -> -35 = -15 >= min(-10, -20) *)
 Example C23_example :
   let p := {| pvars := [];
               pstmts := [ Send (MonLit (AssetLit "USD") 30) (VSrc (SAccount (AccLit "world") OdNone)) (DAccount (AccLit "a"));
                           Send (MonLit (AssetLit "USD") 35) (VSrc (SAccount (AccLit "a") (OdUpTo (MonLit (AssetLit "USD") 20)))) (DAccount (AccLit "b")) ] |} in
   match run p [] {| st_bal := [(("a", "USD"), -10)]; st_meta := [] |} with
-  | Ok r => (map pamt (all_postings r), rbal r) | _ => ([], []) end = ([30; 35], [(("a", "USD"), -15)]).
+  | Ok r => (map pamt (all_postings r), rbal r, effect "a" "USD" (all_postings r)) | _ => ([], [], 0) end
+  = ([30; 35], [(("a", "USD"), -15)], -5).
 Proof. vm_compute. reflexivity. Qed.
